@@ -75,6 +75,13 @@ pub fn alphabet() -> Vec<P> {
         v.push(P::amt("?", "3", same_c(c)).with_ann(Ann::Total("7", o)));
         v.push(P::amt("?", "-7", same_c(c)).with_ann(Ann::LotTotal("750", o)));
     }
+    // a per-unit price written with a minus sign: the posting is valued at quantity x rate, sign and all
+    for c in ["X", "Y"] {
+        let o = next_c(c);
+        v.push(P::amt("?", "1", same_c(c)).with_ann(Ann::Rate("-2", o)));
+        v.push(P::amt("?", "-1", same_c(c)).with_ann(Ann::Rate("-2", o)));
+        v.push(P::amt("?", "-1", same_c(c)).with_ann(Ann::LotRate("-2", o)));
+    }
     // parenthesised spellings of 2 c
     for (c, sp1, sp2) in [("X", "(1 X + 1 X)", "(2 * 1 X)"), ("Y", "(1 Y + 1 Y)", "(2 * 1 Y)"), ("Z", "(1 Z + 1 Z)", "(2 * 1 Z)")] {
         let mut p = P::amt("?", "2", c);
